@@ -206,7 +206,13 @@ def check_one(ctx: runner.Ctx, case):  # noqa: C901
         return
     if not lax_ok:
         ex = outs[False][1]
-        from vkit.errors import exc_site  # noqa: PLC0415
+        from vkit.errors import all_nodes, exc_site  # noqa: PLC0415
+        import collections.abc as cabc  # noqa: PLC0415
+        if overlap and any(getattr(n, "expected_type", None) is cabc.Hashable for n in all_nodes(ex)):
+            # the laxer rules make the cases of a union overlap, "any accepting case may win" (docs) -- here one that yields an
+            # unhashable value (a deque for a str) inside a set: the rejection is a consequence of the documented free choice
+            ctx.count("unspecified_lax_union_case_yields_unhashable_set_element")
+            return
         ctx.violation("lax_rejects_strict_accepted", (type(ex).__name__, exc_site(ex)), case,
                       f"{head}: strict -> {outs[True][1]!r}; lax raised {describe(ex)}")
     elif overlap:
